@@ -307,11 +307,20 @@ func (s *Server) BuildAnswer(z *Zone, id uint16, qu Question) *Msg {
 // EncodeReply serialises m, adding the OPT record / padding the server is
 // configured with.
 func (s *Server) EncodeReply(m *Msg) ([]byte, *Layout) {
-	if s.PadTo < 0 {
+	return s.EncodeReplyExt(m, 0)
+}
+
+// EncodeReplyExt is EncodeReply with the upper eight bits of an extended RCODE
+// (RFC 6891, 6.1.3) in the OPT record; a non-zero ext forces the OPT record.
+func (s *Server) EncodeReplyExt(m *Msg, ext uint8) ([]byte, *Layout) {
+	if s.PadTo < 0 && ext == 0 {
 		return m.Encode(s.Enc)
 	}
 	mm := *m
-	mm.Additional = append(append([]RR(nil), m.Additional...), RR{Type: TypeOPT, Class: 1232})
+	mm.Additional = append(append([]RR(nil), m.Additional...), RR{Type: TypeOPT, Class: 1232, TTL: uint32(ext) << 24})
+	if s.PadTo < 0 {
+		return mm.Encode(s.Enc)
+	}
 	b, lay := mm.Encode(s.Enc)
 	if s.PadTo > 0 {
 		pad := (s.PadTo - (len(b)+4)%s.PadTo) % s.PadTo
@@ -352,7 +361,7 @@ func (s *Server) answer(q *Msg, e *Entry) *Reply {
 		case FaultRCode:
 			m := &Msg{ID: q.ID, Flags: 0x8180 | uint16(f.RCode&0xf), Question: []Question{qu}}
 			e.Outcome, e.Reply = "rcode:"+strconv.Itoa(f.RCode), m
-			b, _ := s.EncodeReply(m)
+			b, _ := s.EncodeReplyExt(m, uint8(f.RCode>>4))
 			return &Reply{Status: 200, Body: b}
 		}
 	}
